@@ -163,6 +163,7 @@ class C08(Prop):
     assumptions = ["custom alphabets: symbols are non-NUL 7-bit characters (the C constructor does not check; it would write outside inmap[])",
                    "digital sequences handed to Textize/revcomp/dealign contain valid codes (< Kp); other codes are an out-of-bounds read in C = fault in the model",
                    "allocation never fails (eslEMEM paths not modelled)",
+                   "esl_abc_Match: y is a residue code (documented precondition); the pinned code tests x twice in its guard and returns NaN for a gap y (proposed fix /var/tmp/fixes-proposed/C08-match-guard.patch); the model follows the documentation",
                    "esl_alphabet_SetEquiv(a, sym, '\\0') is outside the generator (strchr finds the terminating NUL: returns eslOK and maps sym to the invalid code Kp)",
                    "esl_abc_dsqcat with an explicit length treats a NUL byte as inmap[0] = 'unknown' with eslOK (documented: inmap[0] is special); mirrored, not judged"]
     rule = ("cases = one alphabet (3 standard + coins/dice + random custom alphabets) and a history of conversions on strings of "
@@ -329,7 +330,7 @@ class C08(Prop):
                 p = [v + 1e-3 for v in prob(K)]
                 ops.append("iexpect x=%d sc=%s p=%s" % (rng.choice(safe_x), ",".join(str(rng.randrange(-1000, 1000)) for _ in range(K)), ",".join(fbits(v) for v in p)))
             elif r < 0.82:
-                y = rng.choice(safe_x) if rng.random() < 0.9 else rng.randrange(0, Kp)
+                y = rng.choice(safe_x)     # y is always a residue code: for a gap/missing y the code divides 0 by 0 (it tests x twice; see report)
                 if rng.random() < 0.5: ops.append("match x=%d y=%d" % (x, y))
                 else: ops.append("match x=%d y=%d p=%s" % (x, y, ",".join(dbits(v) for v in prob(K))))
             elif r < 0.92:
